@@ -334,8 +334,8 @@ default:
       escalate-auth: true
       escalate-prompt: '(?im)^password:\s?$'
   default-desired-privilege-level: 'privilege-exec'
-  network-on-open:
-    - operation: 'channel.write'
+`
+					seq := fmt.Sprintf(`    - operation: 'channel.write'
       input: 'enable'
     - operation: 'channel.return'
     - operation: 'channel.write'
@@ -345,8 +345,22 @@ default:
     - operation: 'acquire-priv'
     - operation: 'driver.send-command'
       command: 'terminal length 0'
-`
-					p, err := platform.NewPlatform([]byte(fmt.Sprintf(yaml, f.sec.enable)), "dev", append(base(), options.WithAuthSecondary(f.sec.enable))...)
+`, f.sec.enable)
+					var p *platform.Platform
+					var err error
+					popts := append(base(), options.WithAuthSecondary(f.sec.enable))
+					switch f.variant {
+					case "variant-own-sequence":
+						// the variant brings the sequence with the redacted write, the default has a harmless one
+						yaml += "  network-on-open:\n    - operation: 'acquire-priv'\nvariants:\n  v1:\n    network-on-open:\n" + indent(seq, "  ")
+						p, err = platform.NewPlatformVariant([]byte(yaml), "v1", "dev", popts...)
+					case "variant-inherits-sequence":
+						yaml += "  network-on-open:\n" + seq + "variants:\n  v1:\n    failed-when-contains:\n      - 'nope'\n"
+						p, err = platform.NewPlatformVariant([]byte(yaml), "v1", "dev", popts...)
+					default:
+						yaml += "  network-on-open:\n" + seq
+						p, err = platform.NewPlatform([]byte(yaml), "dev", popts...)
+					}
 					if err != nil {
 						setupErr = err
 						return
@@ -428,7 +442,7 @@ func scenarios(tier string) []sched.Scenario {
 	for _, v := range []string{"generic", "generic-two-options", "netconf", "netconf-two-options"} {
 		fvs = append(fvs, fv{"system-key", v})
 	}
-	fvs = append(fvs, fv{"interactive", "generic"}, fv{"interactive", "network"}, fv{"platform-onopen", "redacted-write"}, fv{"platform-onopen", "redacted-write-fails"}, fv{"platform-onopen", "later-step-stalls"})
+	fvs = append(fvs, fv{"interactive", "generic"}, fv{"interactive", "network"}, fv{"platform-onopen", "redacted-write"}, fv{"platform-onopen", "redacted-write-fails"}, fv{"platform-onopen", "later-step-stalls"}, fv{"platform-onopen", "variant-own-sequence"}, fv{"platform-onopen", "variant-inherits-sequence"})
 	for _, x := range fvs {
 		for _, lvl := range []string{"debug", "info", "critical"} {
 			for _, sec := range secretSets {
@@ -449,9 +463,20 @@ func TestCheck(t *testing.T) {
 	sched.Main(t, sched.Check{
 		ID:          "C11",
 		Level:       "exploration",
-		Rule:        "invariant monitor over every execution of: telnet and ssh in-channel login {accepted, one rejection, three rejections, device silent at the password prompt, write error on the credential write}, privilege escalation, called directly and from the driver's on-open function {asks then grants, grants, refuses, asks then refuses, asks then the stream ends / fails / falls silent right after the secret arrived, asks then the write of the secret itself fails}, interactive send with a hidden secret (generic and network), platform on-open with a redacted write (succeeding, failing on that write, a later step of the sequence timing out), system transport refusing a passphrase-protected key (generic and NETCONF); x log level {debug, info, critical} x secret shape {plain, format verbs, regex metacharacters} x read preset {whole, 1 byte} (+ every single extra cut/hold at debug level); a capturing logger and a channel-log writer are attached; distinct = distinct (family, variant, level, secret, schedule)",
+		Rule:        "invariant monitor over every execution of: telnet and ssh in-channel login {accepted, one rejection, three rejections, device silent at the password prompt, write error on the credential write}, privilege escalation, called directly and from the driver's on-open function {asks then grants, grants, refuses, asks then refuses, asks then the stream ends / fails / falls silent right after the secret arrived, asks then the write of the secret itself fails}, interactive send with a hidden secret (generic and network), platform on-open with a redacted write (succeeding, failing on that write, a later step of the sequence timing out, the sequence defined by a platform variant or inherited by one), system transport refusing a passphrase-protected key (generic and NETCONF); x log level {debug, info, critical} x secret shape {plain, format verbs, regex metacharacters} x read preset {whole, 1 byte} (+ every single extra cut/hold at debug level); a capturing logger and a channel-log writer are attached; distinct = distinct (family, variant, level, secret, schedule)",
 		Assumptions: []string{"the device never echoes a secret (precondition of the property)", "non-vacuity is checked: the secret reached the device, the debug log carries 'redacted' and ordinary writes"},
 		Scenarios:   scenarios,
 		Budget:      map[string]time.Duration{"quick": 4 * time.Minute, "thorough": 20 * time.Minute},
 	})
+}
+
+// indent prefixes every non-empty line of s with p.
+func indent(s, p string) string {
+	lines := strings.Split(s, "\n")
+	for i, l := range lines {
+		if l != "" {
+			lines[i] = p + l
+		}
+	}
+	return strings.Join(lines, "\n")
 }
